@@ -20,7 +20,7 @@ FLOORS = {'quick': {'start_emissions': 1500, 'process_order_checks': 1000, 'auto
                     'skip_checks': 200, 'required_failures': 20},
           'thorough': {'start_emissions': 40000, 'process_order_checks': 25000, 'automatic_emissions': 15000,
                        'skip_checks': 5000, 'required_failures': 500}}
-COUNT = {'quick': 300, 'thorough': 7000}
+COUNT = {'quick': 480, 'thorough': 12000}
 BUDGET_S = {'quick': 55, 'thorough': 540}
 
 KNOBS = {'n_min': 1, 'n_max': 4,
